@@ -338,3 +338,36 @@ Proof.
   split; vm_compute; reflexivity.
 Qed.
 Print Assumptions C05_hypotheses_nonvacuous.
+
+(* ---------------------------------------------------------------- without the freshness hypothesis *)
+(* For ANY layers — including ones that keep stale state, as IPv4 (Padding) and TCP (Multipath) do
+   on the unrepaired tree — the first packet decoded into objects holding their zero values equals
+   packet decoding, provided the packet decodes each object at most once (no type repeated in the
+   run, e.g. no QinQ / IP-in-IP). *)
+Theorem C05_prefix_fresh_objects :
+  forall (St : Type) (fam : family St) (reg lkf : Z -> option nat) (p : parser) (decoded0 data : list Z),
+    implements lkf true p -> like_with_like St fam reg lkf -> zero_free lkf ->
+    snd (packet_chain fam reg (p_first p) data) <> PFuel ->
+    let st0 := map (fun d => zero d) fam in
+    let '(chain, pe) := packet_chain fam reg (p_first p) data in
+    let '(pre, s) := run_prefix (insub lkf) chain in
+    NoDup (map e_obj (touched pre s)) ->
+    decode_layers true fam p st0 decoded0 data =
+      spec_parse fam reg (insub lkf) (p_first p) (p_ignpanic p) (p_ignunsup p) st0 data.
+Proof. exact decode_layers_spec_fresh. Qed.
+Print Assumptions C05_prefix_fresh_objects.
+
+(* non-vacuity: the sticky synthetic layer (not fresh_indep) decoded once into a zero object *)
+Example C05_prefix_fresh_objects_nonvacuous :
+  exists p, new_parser true 2 1 false false (map syn_layer sticky_rows) [0%nat] = Ok p /\
+    let fam := map syn_layer sticky_rows in
+    let reg := fun t => if t =? 1 then Some 0%nat else None in
+    snd (packet_chain fam reg 1 [1; 2; 77]) <> PFuel /\
+    NoDup (map e_obj (touched (fst (run_prefix (insub reg) (fst (packet_chain fam reg 1 [1; 2; 77]))))
+                              (snd (run_prefix (insub reg) (fst (packet_chain fam reg 1 [1; 2; 77])))))) /\
+    r_decoded (decode_layers true fam p [szero] [] [1; 2; 77]) = [1].
+Proof.
+  eexists. split; [vm_compute; reflexivity|]. cbv zeta.
+  split; [vm_compute; congruence|]. split; [vm_compute; repeat constructor; intros []|].
+  vm_compute. reflexivity.
+Qed.
